@@ -126,6 +126,7 @@ fn drain_closure<C: FnMut(Event<T>, &mut ())>(capacity: usize, receiver: &mpsc::
         invariant_except_break
             !clear_readiness, !disconnected,
             lit.index@ > 0 ==> exists|v: T| #[trigger] w_received(receiver, v),
+            got.len() == lit.index@,
         invariant
             max >= 1, may_recv(receiver),
             forall|e: Event<T>, m: &mut ()| #[trigger] call_ensures(callback, (e, m), ()) ==> w_event_delivered(e),
@@ -142,6 +143,8 @@ fn drain_closure<C: FnMut(Event<T>, &mut ())>(capacity: usize, receiver: &mpsc::
             disconnected ==> w_disconnected(receiver) && w_event_delivered(Event::<T>::Closed),
             !(clear_readiness && disconnected),
             clear_readiness || disconnected || exists|v: T| #[trigger] w_received(receiver, v),
+            // neither flag set ONLY if the whole batch was used up (else the channel would re-arm itself on an empty queue)
+            (!clear_readiness && !disconnected) ==> got.len() == max,
 //@ rw R14 1 <<for _ in 0..max>> => <<for _i in lit: 0..max>>
 //@ tail
     (clear_readiness, disconnected)
